@@ -139,6 +139,62 @@ fn run(input: RunInput) -> ScenFuture {
             retired.push(adv);
             sleep_ms(50).await;
         }
+        // an adversary that has looked at the listener first: it dials once as a member of the
+        // listener's network, reads the listener's certificate, and comes back with a certificate
+        // issued for another network that *also* carries every other name the listener's own
+        // certificate advertises (anything in there is public). Which names a listener accepts
+        // is a matter of its configuration, not of what its certificate happens to contain.
+        for l in 0..2usize {
+            if w.violated() {
+                break;
+            }
+            let scout = adv_endpoint(&w, AdvSpec {
+                idx: 9, port: 7400 + l as u16, chain: vec![gen_cert(&k_adv, &names[l].0)], sign_key: k_adv, present_client_cert: true,
+                idle_ms: 6_000, keep_alive_ms: None, max_bidi: 10,
+            });
+            let mut advertised: Vec<String> = Vec::new();
+            if let Ok(c) = scout.dial(nodes[l].addr, &names[l].0, 1_200).await {
+                if let Some(certs) = c.peer_identity().and_then(|i| i.downcast::<Vec<rustls::pki_types::CertificateDer<'static>>>().ok()) {
+                    for cert in certs.iter() {
+                        if let Ok((_, x)) = x509_parser::parse_x509_certificate(cert.as_ref()) {
+                            if let Ok(Some(san)) = x.subject_alternative_name() {
+                                for n in &san.value.general_names {
+                                    if let x509_parser::extensions::GeneralName::DNSName(d) = n {
+                                        advertised.push(d.to_string());
+                                    }
+                                }
+                            }
+                        }
+                    }
+                }
+                c.close(0u32.into(), b"");
+            }
+            retired.push(scout);
+            sleep_ms(50).await;
+            if !advertised.is_empty() {
+                w.probe("listener-certificate-read-by-the-adversary");
+            }
+            let extra: Vec<String> = advertised.iter().filter(|n| !accepts(l, n)).cloned().collect();
+            if !extra.is_empty() {
+                w.probe("listener-certificate-advertises-names-beyond-its-network-names");
+            }
+            let mut cert_names = vec!["other-net".to_string()];
+            cert_names.extend(extra.iter().cloned());
+            let adv = adv_endpoint(&w, AdvSpec {
+                idx: 9, port: 7410 + l as u16, chain: vec![gen_cert_shape(&k_adv, &cert_names, None)], sign_key: k_adv, present_client_cert: true,
+                idle_ms: 6_000, keep_alive_ms: None, max_bidi: 10,
+            });
+            let res = adv.dial(nodes[l].addr, &names[l].0, 1_200).await;
+            w.event(format!("adv informed:{}", if res.is_ok() { "admitted" } else { "refused" }));
+            if res.is_ok() && !accepts(l, "other-net") {
+                w.violate("adversarial-name-combination-admitted", "sni_accepted=true cert_accepted=false names-copied-from-the-listener's-certificate", format!("listener ({:?},{:?}) admitted a dialer claiming its primary name with a certificate for {cert_names:?} (\"other-net\" plus the names its own certificate advertises beyond its network names)", names[l].0, names[l].1));
+            }
+            if let Ok(c) = res {
+                c.close(0u32.into(), b"");
+            }
+            retired.push(adv);
+            sleep_ms(50).await;
+        }
         let mut retired_l = Vec::new();
         // adversarial listener: which name does an honest dialer offer?
         let lst = adv_endpoint(&w, AdvSpec {
@@ -192,10 +248,16 @@ fn run(input: RunInput) -> ScenFuture {
                     }
                 })
             };
-            let res = tokio::time::timeout(std::time::Duration::from_secs(5), nodes[d].net.connect(l2.addr)).await;
+            // (plainly, or naming the identity that really lives there: the name check is the same)
+            let pinned = r.gen_bool(0.5);
+            let res = if pinned {
+                tokio::time::timeout(std::time::Duration::from_secs(5), nodes[d].net.connect_with_peer_id(l2.addr, public_key(&k_adv))).await
+            } else {
+                tokio::time::timeout(std::time::Duration::from_secs(5), nodes[d].net.connect(l2.addr)).await
+            };
             let connected = matches!(res, Ok(Ok(_)));
             let model = cert_names.iter().any(|n| *n == names[d].0);
-            let key = format!("dialer=({},{:?}) cert_is_primary={} cert_is_alternate={}", names[d].0, names[d].1, model, cert_names.iter().any(|n| names[d].1.as_deref() == Some(n.as_str())));
+            let key = format!("dialer=({},{:?}) cert_is_primary={} cert_is_alternate={}{}", names[d].0, names[d].1, model, cert_names.iter().any(|n| names[d].1.as_deref() == Some(n.as_str())), if pinned { " pinned" } else { "" });
             w.event(format!("adv-listener {}:{}", if model { "primary" } else { "other" }, if connected { "ok" } else { "err" }));
             if connected && !model {
                 w.violate("dialer-accepted-certificate-for-a-name-it-did-not-dial", key.clone(), format!("dialer with primary {:?} (alternate {:?}) connected to a listener presenting a certificate for {cert_name:?}", names[d].0, names[d].1));
